@@ -14,7 +14,9 @@ ap.add_argument("--keep", action="store_true")
 ap.add_argument("--reverse", action="store_true", help="apply the patch in reverse (revert of a fix)")
 a = ap.parse_args()
 VERIF = os.path.dirname(os.path.dirname(os.path.abspath(__file__)))
-scratch = tempfile.mkdtemp(prefix="nvmut-", dir="/tmp")
+scratch = "/tmp/nvmut-scratch"   # fixed path: cargo fingerprints of earlier mutants are overwritten, not accumulated
+shutil.rmtree(scratch, ignore_errors=True)
+os.makedirs(scratch)
 try:
     subprocess.check_call(["rsync", "-a", "--exclude", "target", "--exclude", ".git", "/repo/", scratch + "/"])
     cmd = ["git", "apply"] + (["-R"] if a.reverse else []) + ["--directory", "", os.path.abspath(a.patch)]
